@@ -17,7 +17,7 @@ from concurrent.futures import ThreadPoolExecutor
 ROOT = os.path.dirname(os.path.dirname(os.path.abspath(__file__)))
 SPEC = os.path.join(ROOT, "spec")
 _ALT = bool(os.environ.get("VERIF_REPO"))          # experiments against a scratch tree: nothing under evidence/ or work/ is touched
-WORK = os.path.join(ROOT, "work-alt" if _ALT else "work")
+WORK = os.path.join(ROOT, ("work-alt" + os.environ.get("VERIF_LANE", "")) if _ALT else "work")
 FLAT = os.path.join(WORK, "flat")
 HARNESS = os.path.join(ROOT, "harness")
 EVID = os.path.join(WORK, "evidence") if _ALT else os.path.join(ROOT, "evidence")
